@@ -26,9 +26,9 @@ INFO = {
         'quick': {'counters': {'roundtrips': 120, 'byte_identity_checks': 120, 'feet_files_reparsed': 20, 'fortran_style_files': 30,
                                'shipped_or_derived': 3, 'records_resliced_in_situ': 3000},
                   'seen': {'header_combination': 30}, 'nontrivial': 80},
-        'thorough': {'counters': {'roundtrips': 3000, 'byte_identity_checks': 3000, 'feet_files_reparsed': 600,
-                                  'fortran_style_files': 600, 'shipped_or_derived': 40, 'records_resliced_in_situ': 100000},
-                     'seen': {'header_combination': 72}, 'nontrivial': 2000},
+        'thorough': {'counters': {'roundtrips': 9000, 'byte_identity_checks': 9000, 'feet_files_reparsed': 1800,
+                                  'fortran_style_files': 1500, 'shipped_or_derived': 40, 'records_resliced_in_situ': 300000},
+                     'seen': {'header_combination': 72}, 'nontrivial': 6000},
     },
     'watchdog_s': {'quick': 900, 'thorough': 3600},
     'assumptions': ['names are right-justified (the format documentation says only those are safe in files)',
@@ -41,7 +41,7 @@ FT = 0.3048
 def plan(tier, seed):
     if tier == 'quick':
         return [{'kind': 'gen', 'n': 150} for _ in range(4)] + [{'kind': 'fortran', 'n': 150} for _ in range(2)] + [{'kind': 'shipped', 'which': ['g7', 'g5', 'g6'], 'derived': 8}]
-    return [{'kind': 'gen', 'n': 250} for _ in range(13)] + [{'kind': 'fortran', 'n': 350} for _ in range(2)] + \
+    return [{'kind': 'gen', 'n': 1000} for _ in range(13)] + [{'kind': 'fortran', 'n': 1000} for _ in range(2)] + \
         [{'kind': 'shipped', 'which': ['g1', 'g2', 'g3', 'g4', 'g5', 'g6', 'g7'], 'derived': 40}]
 
 
@@ -154,9 +154,21 @@ def gen_geo(ctx, i):
         dy[0] = float(rng.randint(1, 150) * 2)
         dz[0] = float(rng.randint(1, 40) * 2)
         org = [-dx[0] / 2 if rng.random() < 0.7 else org[0], -dy[0] / 2 if rng.random() < 0.5 else org[1], dz[0] / 2]
+    zvariant = None
+    if zero:
+        # ... or slightly below zero (prints as -0.00), or a specified centre of exactly zero that is not the mid-point
+        zvariant = rng.choice(['centred', 'just-below-zero', 'specified-zero-off-centre'])
+        if zvariant == 'just-below-zero':
+            org[2] = dz[0] / 2 - 0.004
+        elif zvariant == 'specified-zero-off-centre':
+            org[2] = float(int(dz[0] / 2) // 2 + 1) if dz[0] >= 4 else dz[0] / 2
     geo = mg.mulgrid().rectangular(dx, dy, dz, convention=conv, atmos_type=atm, origin=org, case=case_, block_order=order)
+    if zvariant == 'specified-zero-off-centre' and geo.layerlist[1].bottom < 0.0 < geo.layerlist[1].top:
+        geo.layerlist[1].centre = 0.0
     desc = {'kind': 'rectangular', 'dx': dx, 'dy': dy, 'dz': dz, 'convention': conv, 'atmos_type': atm, 'origin': org,
-            'block_order': order, 'case': case_, 'feet': feet, 'zero_mode': zero}
+            'block_order': order, 'case': case_, 'feet': feet, 'zero_mode': zero, 'zero_variant': zvariant}
+    if zvariant:
+        ctx.see('layer_centre_zero_variant', zvariant)
     if feet:
         geo.unit_type = 'FEET '
     r = rng.random()
